@@ -47,6 +47,7 @@ func init() {
 				ruleStartChunkEffects(c, r, t, "lib:")
 			}
 			ruleDashDash(c, r, "")
+			ruleValidDictCap(c, r, "")
 			ruleDeferResult(c, r, "")
 			ruleReaderWindow(c, r, "")
 			ruleGxzDataSafety(c, r, "")
